@@ -332,3 +332,15 @@ def run(ctx):
     check_flush(ctx, 3)
     check_grid(ctx, le, 4)
     check_params(ctx, 5)
+    # (4) "written at tick k => delivered at tick k" also needs the stamp to come back from the file as the number that was written: the
+    # arrival column is written from the row's own arrival and parsed back with float() (the clauses are C14#2, here for that column only)
+    from . import c14, c07
+    arrival_only = lambda what, fn: "arrival" in what
+    dct, wr, pr, rp = c14.check_tables(Renumber(ctx, {1: 4}, only=lambda what, fn: False))
+    c14.check_flows(Renumber(ctx, {2: 4, 5: 4}, only=arrival_only), dct, wr, pr, rp, 2)
+    c14.check_arrival_source(Renumber(ctx, {2: 4}, only=arrival_only), 2)
+    # (5) `run` and `gentrace` each build a generator of their own from the same parameters and seed: the two see the same arrivals only if
+    # every draw of the generator comes from its own seeded stream (C07#3/#5, here for the workload module only)
+    in_workload = lambda what, fn: fn is not None and fn.mod.rel == WL
+    c07.check_randomness(Renumber(ctx, {3: 5}, only=in_workload), 3)
+    c07.check_generator(Renumber(ctx, {5: 5}, only=in_workload), 5)
